@@ -134,6 +134,14 @@ def has_foreign_run(obj, run):
     return False
 
 
+def cmp_kwargs(node, kwargs):
+    """kwargs as compared by the oracle: a start node that ignores additional_data (nested inner start,
+    DESIGN A5: the statement is silent about the data it sees) is compared without it."""
+    if (node.get('plan') or {}).get('use_ad', True) or 'additional_data' not in kwargs:
+        return kwargs
+    return {k: v for k, v in kwargs.items() if k != 'additional_data'}
+
+
 def sel(obj, n):
     return zlib.crc32(repr(obj).encode()) % n
 
@@ -161,7 +169,13 @@ def behave(node, kwargs, attempt, run):
             return ('ok', lbi[str(val)])
         labels = plan['labels']
         return ('ok', labels[sel(sorted(kwargs.items()), len(labels))])
-    if kind == 'dest':
+    if kind == 'dest' and 'iter_by_attempt' in plan:
+        # nested (inner) recurrent destination: its start node ignores additional_data, so every inner
+        # iteration has identical arguments; it asks for another iteration until it has been invoked
+        # `iter_by_attempt` times with these arguments (the attempt counter is keyed by arguments)
+        if attempt < plan['iter_by_attempt']:
+            return ('next', ('AD', node['id'], attempt + 1, run))
+    elif kind == 'dest':
         want = plan.get('want_iter', 0)
         if isinstance(want, dict):
             want = want.get(str(val), want.get('*', 0))
@@ -283,7 +297,7 @@ def _begin(nid, kwargs, inst=None):
         import random as _r
         import time as _t
         _t.sleep(_r.random() * REAL['jitter'])
-    key = (run, nid, repr(sorted(kwargs.items(), key=lambda kv: kv[0])))
+    key = (run, nid, repr(sorted(cmp_kwargs(node, kwargs).items(), key=lambda kv: kv[0])))
     attempt = s.attempts.get(key, 0)
     s.attempts[key] = attempt + 1
     s.ev('body_start', run, nid, attempt=attempt, kwargs=dict(kwargs), ctxrun=RUN.get())
